@@ -4,6 +4,7 @@ package main
 
 import (
 	"fmt"
+	"sort"
 	"go/token"
 	"go/types"
 	"strings"
@@ -173,10 +174,14 @@ func (vc *VC) callFunction(st *State, fr *Frame, callee *ssa.Function, fv FuncV,
 	if c, ok := vc.contracts[callee]; ok && !(c.EffectFree && len(c.Ensures) == 0) {
 		// nil receiver dereference is the callee's business; modular call
 		names := map[string]nameEntry{}
-		for i, p := range callee.Params {
-			if i < len(args) {
-				names[p.Name()] = nameEntry{V: args[i], T: p.Type()}
-			}
+		ai := 0
+		if sig.Recv() != nil && ai < len(args) {
+			names[sig.Recv().Name()] = nameEntry{V: args[ai], T: sig.Recv().Type()}
+			ai++
+		}
+		for i := 0; i < sig.Params().Len() && ai < len(args); i++ {
+			names[sig.Params().At(i).Name()] = nameEntry{V: args[ai], T: sig.Params().At(i).Type()}
+			ai++
 		}
 		res := vc.applyContract(st, fr, c, funcShort(callee), names, sig, pos)
 		vc.setResult(fr, instr, res)
@@ -267,57 +272,43 @@ func (vc *VC) applyContract(st *State, fr *Frame, c *Contract, calleeName string
 		cl := *r
 		vc.checkClause(st, fr, env, "call-requires", &cl, calleeName+"/", pos)
 	}
-	// evaluate modifies-at sets in the pre-state
-	type havocItem struct {
-		arr string
-		at  []string
-		restricted bool
+	// havoc what the contract allows to change; everything else allocated before the call is kept
+	pols := vc.modPolicyOf(c)
+	var arrs []string
+	for a := range pols {
+		arrs = append(arrs, a)
 	}
-	var items []havocItem
-	for _, mi := range c.Modifies {
-		var at []string
-		if mi.At != nil {
-			for _, e := range mi.At {
-				v, _ := env.eval(e)
-				switch x := v.(type) {
-				case Sc:
-					at = append(at, x.T)
-				case SliceV:
-					at = append(at, x.Base)
-				case LocV:
-					at = append(at, x.Obj)
-				default:
-					sfail("modifies at: unsupported object expression %s", e)
-				}
-			}
-		}
-		for _, a := range vc.modItemArrays(c, mi) {
-			items = append(items, havocItem{a, at, mi.At != nil})
-		}
+	sort.Strings(arrs)
+	type pending struct {
+		arr, oldSym string
+		cond        string
+		o           string
 	}
-	// allocation may advance
+	var pend []pending
+	for _, a := range arrs {
+		pol := pols[a]
+		if pol.unrestricted {
+			continue
+		}
+		vc.counter++
+		o := fmt.Sprintf("o!%d", vc.counter)
+		pend = append(pend, pending{arr: a, cond: notInSet(env, o, pol.at), o: o})
+	}
 	nb := st.fresh("alloc", SInt)
 	st.assume(fmt.Sprintf("(>= %s %s)", nb, preAlloc))
 	st.allocBase, st.allocOff = nb, 0
-	done := map[string]bool{}
-	for _, it := range items {
-		if done[it.arr] {
-			continue
-		}
-		done[it.arr] = true
-		sort := vc.arrSorts[it.arr]
-		oldSym := st.array(it.arr, sort)
-		newSym := st.havocArray(it.arr)
-		st.wellTyped(it.arr, newSym, st.allocTerm())
-		// objects allocated before the call and not in the at-set keep their values
-		vc.counter++
-		o := fmt.Sprintf("o!%d", vc.counter)
-		if it.restricted {
-			var ne []string
-			for _, a := range it.at {
-				ne = append(ne, sNot(sEq(o, a)))
+	for _, a := range arrs {
+		sort := vc.arrSorts[a]
+		oldSym := st.array(a, sort)
+		newSym := st.havocArray(a)
+		st.wellTyped(a, newSym, st.allocTerm())
+		for _, p := range pend {
+			if p.arr == a {
+				if strings.HasPrefix(a, "GG_") {
+					continue
+				}
+				st.assume(fmt.Sprintf("(forall ((%s Int)) (! (=> (and (< %s %s) %s) (= (select %s %s) (select %s %s))) :pattern ((select %s %s))))", p.o, p.o, preAlloc, p.cond, newSym, p.o, oldSym, p.o, newSym, p.o))
 			}
-			st.assume(fmt.Sprintf("(forall ((%s Int)) (! (=> (and (< %s %s) %s) (= (select %s %s) (select %s %s))) :pattern ((select %s %s))))", o, o, preAlloc, sAnd(ne...), newSym, o, oldSym, o, newSym, o))
 		}
 	}
 	// results
@@ -340,6 +331,7 @@ func (vc *VC) applyContract(st *State, fr *Frame, c *Contract, calleeName string
 	for _, e := range c.Ensures {
 		st.assume(env2.evalBool(e.E))
 	}
+	vc.canary(st, fr, "after_call_"+sanitize(calleeName), pos)
 	return res
 }
 
